@@ -634,6 +634,8 @@ def parseMassConserving (ctx : Ctx R) (c : Cur) : Except Err (MassConserving R) 
   let nPts ← c.getNat "number of points in spline"
   -- `WBAssertThrow(spline_n_points >= 1, …)` (fixed upstream: with 0 points the sample spacing 1/0 made every splined temperature NaN)
   if nPts == 0 then .error .other
+  -- `WBAssertThrow(!apply_spline || max_depth < max double, …)` (fixed upstream: the spline samples at (i/n − 1)·max distance, which overflowed)
+  if spline && !(decide (mx < Scalar.dblMax)) then .error .other
   let sv0 ← idx subVel 0
   if sv0.length > 1 then do
     -- `WBAssertThrow(ridge_spreading_velocities.first.size() == mid_oceanic_ridges.size(), …)` (fixed upstream: the migration times were indexed by ridge unchecked)
